@@ -11,7 +11,7 @@ import (
 	"github.com/ava-labs/hypersdk/state"
 )
 
-const c24MaxKeys = 3
+const c24MaxKeys = 5
 const c24MaxTxs = 3
 
 var errC24 = errors.New("harness: injected read error")
@@ -196,6 +196,64 @@ func VerifC24() {
 			verifFail("get-returns-undeclared-key")
 		}
 		verifReach("get-ok")
+	}
+	verifReach("end")
+}
+
+// VerifC24Backlog: one transaction declaring more keys than the fetch queue can buffer (queue capacity = number of
+// transactions of the block): 2..maxKeys keys, fetch concurrency 1..2, optionally one key whose read fails. Fetch, Get
+// and Wait must return on every schedule, report the failing read, and otherwise deliver every key.
+func VerifC24Backlog() {
+	ctx := context.Background()
+	nKeys := 2 + verifChoose("keys", verifParam("maxKeys", 4, c24MaxKeys)-1)
+	p := &c24parent{failKey: -1}
+	for k := 0; k < nKeys; k++ {
+		p.has[k] = true
+		p.val[k] = byte(10 + k)
+	}
+	if verifChoose("injectError", 2) == 1 {
+		p.failKey = verifChoose("failKey", nKeys)
+	}
+	conc := 1 + verifChoose("fetchConcurrency", 2)
+	f := New(p, 1, conc)
+	sk := state.Keys{}
+	for k := 0; k < nKeys; k++ {
+		sk[c24key(k)] = state.Read
+	}
+	id := ids.ID{1}
+	fetchErr := f.Fetch(ctx, id, sk.WithoutPermissions())
+	var got map[string][]byte
+	var getErr error
+	if fetchErr == nil {
+		got, getErr = f.Get(id)
+	}
+	waitErr := f.Wait()
+	if p.failKey < 0 {
+		if fetchErr != nil {
+			verifFail("fetch-error-without-read-error")
+		}
+		if getErr != nil {
+			verifFail("get-error-without-read-error")
+		}
+		if waitErr != nil {
+			verifFail("wait-error-without-read-error")
+		}
+		if len(got) != nKeys {
+			verifFail("present-key-treated-as-absent")
+		}
+		verifReach("all-keys-delivered")
+	} else {
+		if waitErr == nil {
+			if fetchErr == nil {
+				verifFail("failing-read-not-reported")
+			}
+		}
+		if fetchErr == nil {
+			if getErr == nil {
+				verifFail("failing-read-treated-as-absent")
+			}
+		}
+		verifReach("read-error-reported")
 	}
 	verifReach("end")
 }
